@@ -105,7 +105,17 @@ pub enum Byz {
     Reference { kind: u8, flag: u8, len: u64 },
     /// variant index = number of fields, bool byte 2, opt tag 2
     BadTag(u8),
+    /// `vec <fixed-width primitive>` with a declared length whose byte count runs past the
+    /// input, or past 2^64; `tail` bytes of elements follow
+    PrimVec { elem: u8, len: u64, tail: u8 },
+    /// type T = opt T (or vec T) and a value nested `value_depth` levels: beyond the 16-bit
+    /// depth counter when the receiver runs on a very large stack
+    MuNest { vec: bool, value_depth: u32 },
 }
+
+pub const PRIM_VEC: [(u8, &str, u64); 11] = [(0x7a, "Vec<u16>", 2), (0x79, "Vec<u32>", 4), (0x78, "Vec<u64>", 8), (0x76, "Vec<i16>", 2), (0x75, "Vec<i32>", 4), (0x74, "Vec<i64>", 8), (0x73, "Vec<f32>", 4), (0x72, "Vec<f64>", 8), (0x7e, "Vec<bool>", 1), (0x7b, "Vec<u8>", 1), (0x77, "Vec<i8>", 1)];
+/// stack for the receivers of `MuNest` messages deeper than the 16-bit counter (address space; touched only as far as used)
+pub const GIANT_STACK_KIB: usize = 2 << 20;
 
 #[derive(Serialize, Deserialize, Clone, Debug, PartialEq)]
 pub enum Msg {
@@ -407,6 +417,21 @@ pub fn build_byz(b: &Byz) -> Vec<u8> {
             }
             m.extend([0x01, 0x6d]);
         }
+        Byz::PrimVec { elem, len, tail } => {
+            let (op, _, _) = PRIM_VEC[*elem as usize % PRIM_VEC.len()];
+            m.extend([0x01, 0x6d, op, 0x01, 0x00]);
+            m.extend(leb(*len));
+            for i in 0..*tail {
+                m.push(i & 1);
+            }
+        }
+        Byz::MuNest { vec, value_depth } => {
+            m.extend([0x01, if *vec { 0x6d } else { 0x6e }, 0x00, 0x01, 0x00]);
+            for _ in 0..*value_depth {
+                m.push(0x01);
+            }
+            m.push(0x00);
+        }
         Byz::BadTag(k) => match k % 3 {
             0 => m.extend([0x01, 0x6b, 0x02, 0x00, 0x7f, 0x01, 0x7f, 0x01, 0x00, 0x02]),
             1 => m.extend([0x00, 0x01, 0x7e, 0x02]),
@@ -514,7 +539,23 @@ fn gen_damage(rng: &mut Rng, approx_len: usize) -> Damage {
 }
 
 fn gen_byz(rng: &mut Rng) -> Byz {
-    match rng.below(16) {
+    match rng.below(18) {
+        16 => {
+            let e = rng.below(PRIM_VEC.len() as u64) as u8;
+            let sz = PRIM_VEC[e as usize].2;
+            let len = match rng.below(8) {
+                0 => (1u64 << 63) - 1,
+                1 => u64::MAX / sz,
+                2 => (u64::MAX / sz).saturating_add(1),
+                3 => u64::MAX / sz - rng.below(16),
+                4 => (u64::MAX / (sz + 3)).saturating_add(rng.below(3)),
+                5 => u64::MAX - rng.below(4),
+                6 => 1 << *rng.pick(&[32u32, 40, 61, 62, 63]),
+                _ => rng.range(1, 40),
+            };
+            Byz::PrimVec { elem: e, len, tail: rng.below(24) as u8 }
+        }
+        17 => Byz::MuNest { vec: rng.chance(1, 3), value_depth: if rng.chance(1, 6) { *rng.pick(&[65_534u32, 65_535, 65_536, 65_537, 70_000]) } else { *rng.pick(&[100u32, 3_000, 20_000]) } },
         15 => Byz::DeepFields { variant: rng.chance(1, 3), depth: *rng.pick(&[10u32, 100, 1000, 5000, 9999, 10000]) },
         0 => Byz::DeepChain { vec: rng.chance(1, 2), depth: *rng.pick(&[10u32, 50, 500, 5000, 9999, 10000]), value_depth: *rng.pick(&[0u32, 10, 500, 5000, 50_000]) },
         1 => Byz::SelfRef { variant: rng.chance(1, 2), mutual: rng.chance(1, 2) },
@@ -586,7 +627,37 @@ pub fn generate(_prop: &str, _tier: Tier, seed: u64, run: u64) -> Sc {
         if fl.chance(1, 2) {
             post_damage = if fl.chance(1, 2) { vec![Damage::CutTail(fl.range(1, 4) as usize)] } else { (0..fl.range(1, 2)).map(|_| gen_damage(&mut fl, 24)).collect() };
         }
-        (Msg::Byzantine(gen_byz(&mut fl)), r)
+        let b = gen_byz(&mut fl);
+        match &b {
+            Byz::PrimVec { elem, .. } => {
+                // mostly at the receiver whose element type matches exactly, half the time without a quota
+                let r = if wl.chance(2, 3) { Receiver::Native(PRIM_VEC[*elem as usize % PRIM_VEC.len()].1.to_string()) } else { r };
+                let mut cfg = cfg.clone();
+                if knobs.chance(1, 2) {
+                    cfg.decoding_quota = None;
+                }
+                return Sc { stack_kib, receiver: r, msg: Msg::Byzantine(b), post_damage: vec![], cfg };
+            }
+            Byz::MuNest { vec, value_depth } => {
+                let t0 = if *vec { SType::vec(SType::name("T0")) } else { SType::opt(SType::name("T0")) };
+                let mut env = SEnv::new();
+                env.0.insert("T0".into(), t0);
+                let r = match wl.below(3) {
+                    0 => Receiver::Untyped { env, tys: vec![SType::name("T0")] },
+                    1 => Receiver::DoneOnly,
+                    _ => Receiver::NoType,
+                };
+                let mut cfg = cfg.clone();
+                if knobs.chance(1, 2) {
+                    cfg.decoding_quota = None;
+                    cfg.skipping_quota = None;
+                }
+                let stack_kib = if *value_depth > 60_000 || knobs.chance(1, 4) { GIANT_STACK_KIB } else { stack_kib };
+                return Sc { stack_kib, receiver: r, msg: Msg::Byzantine(b), post_damage: vec![], cfg };
+            }
+            _ => {}
+        }
+        (Msg::Byzantine(b), r)
     } else if wl.chance(1, 2) {
         let ty = if wl.chance(1, 3) { wl.pick(&BOMB_RECEIVERS).to_string() } else { corp[wl.usize(corp.len())].name.clone() };
         let base = Base::Native { ty: ty.clone(), vseed: wl.next_u64(), size: wl.range(0, 10) as usize };
